@@ -29,6 +29,8 @@ pub enum Parity {
     Even = 0,
     Odd = 1,
     Mixed = 2,
+    /// no red zones: byte buffers are carved back to back from an arena (slab-like placement)
+    Packed = 3,
 }
 
 static PARITY: AtomicU8 = AtomicU8::new(0);
@@ -39,6 +41,9 @@ static MIX: AtomicU64 = AtomicU64::new(0x9E3779B97F4A7C15);
 
 pub fn set_parity(p: Parity) {
     PARITY.store(p as u8, Relaxed);
+}
+pub fn is_packed() -> bool {
+    PARITY.load(Relaxed) == 3
 }
 pub fn set_mix_seed(s: u64) {
     MIX.store(s | 1, Relaxed);
@@ -93,6 +98,34 @@ static TAB: TabCell = TabCell(UnsafeCell::new(Tab {
 }));
 
 static LOCK: AtomicBool = AtomicBool::new(false);
+
+const ARENA_SIZE: usize = 256 << 20;
+const PACK_MAX: usize = 8192;
+static ARENA_BASE: AtomicUsize = AtomicUsize::new(0);
+static ARENA_USED: AtomicUsize = AtomicUsize::new(0);
+
+/// bump-allocate `size` bytes from the packed arena (never reused); 0 when exhausted
+unsafe fn arena_alloc(size: usize) -> usize {
+    let mut base = ARENA_BASE.load(Relaxed);
+    if base == 0 {
+        let p = System.alloc(Layout::from_size_align_unchecked(ARENA_SIZE, 4096)) as usize;
+        if p == 0 {
+            return 0;
+        }
+        match ARENA_BASE.compare_exchange(0, p, Relaxed, Relaxed) {
+            Ok(_) => base = p,
+            Err(cur) => {
+                System.dealloc(p as *mut u8, Layout::from_size_align_unchecked(ARENA_SIZE, 4096));
+                base = cur;
+            }
+        }
+    }
+    let off = ARENA_USED.fetch_add(size, Relaxed);
+    if off + size > ARENA_SIZE {
+        return 0;
+    }
+    base + off
+}
 
 struct Guard;
 fn lock() -> Guard {
@@ -359,6 +392,9 @@ fn real_layout(size: usize) -> Layout {
 }
 
 unsafe fn check_redzones(n: &Node) -> Option<(VKind, usize)> {
+    if n.isbyte == 2 {
+        return None;
+    }
     RZ_CHECKS.fetch_add(1, Relaxed);
     let lo = n.base as *const u8;
     let lo_len = n.user - n.base;
@@ -389,7 +425,9 @@ unsafe fn check_poison(n: &Node) -> Option<usize> {
 }
 
 unsafe fn sys_release(n: &Node) {
-    if n.isbyte != 0 {
+    if n.isbyte == 2 {
+        // arena memory is never handed out again
+    } else if n.isbyte != 0 {
         System.dealloc(n.base as *mut u8, real_layout(n.size));
     } else {
         System.dealloc(n.base as *mut u8, Layout::from_size_align_unchecked(n.size, n.align));
@@ -463,7 +501,16 @@ unsafe fn do_alloc(layout: Layout, zero: bool) -> *mut u8 {
     ALL_ALLOCS.fetch_add(1, Relaxed);
     let seq = SEQ.fetch_add(1, Relaxed);
     let full = FULL.load(Relaxed);
-    let (base, user) = if isbyte {
+    let packed = isbyte && PARITY.load(Relaxed) == 3 && size <= PACK_MAX;
+    let pk = if packed { arena_alloc(size) } else { 0 };
+    let (base, user) = if pk != 0 {
+        if zero {
+            std::ptr::write_bytes(pk as *mut u8, 0, size);
+        } else if full {
+            std::ptr::write_bytes(pk as *mut u8, FRESH_BYTE, size);
+        }
+        (pk as *mut u8, pk as *mut u8)
+    } else if isbyte {
         let rl = real_layout(size);
         let base = System.alloc(rl);
         if base.is_null() {
@@ -518,7 +565,7 @@ unsafe fn do_alloc(layout: Layout, zero: bool) -> *mut u8 {
                 seq,
                 tag: if scoped { tag } else { 0 },
                 state: 1,
-                isbyte: isbyte as u8,
+                isbyte: if pk != 0 { 2 } else { isbyte as u8 },
                 hnext: 0,
                 lprev: 0,
                 lnext: 0,
@@ -647,13 +694,16 @@ pub fn find_live(addr: usize) -> Option<Block> {
     let _g = lock();
     unsafe {
         let t = tab();
-        let mut j = t.live_head;
-        while j != 0 {
-            let n = &t.nodes[j as usize];
-            if addr >= n.user && addr <= n.user + n.size {
-                return Some(Block { user: n.user, size: n.size, seq: n.seq, tag: n.tag, live: true, isbyte: n.isbyte != 0 });
+        // strict containment first: with back-to-back placement the end of one block is the start of the next
+        for strict in [true, false] {
+            let mut j = t.live_head;
+            while j != 0 {
+                let n = &t.nodes[j as usize];
+                if addr >= n.user && (addr < n.user + n.size || (!strict && addr == n.user + n.size)) {
+                    return Some(Block { user: n.user, size: n.size, seq: n.seq, tag: n.tag, live: true, isbyte: n.isbyte != 0 });
+                }
+                j = n.lnext;
             }
-            j = n.lnext;
         }
     }
     None
